@@ -4,8 +4,8 @@ C04 — setNestedStructWithDepth's shortcut: a nested struct field whose *own* k
 looks like a JSON object or array and that `json.Unmarshal` accepts for the field is that decoded
 struct; the dotted keys, the defaults and the limits inside it play no part. What `encoding/json`
 makes of the string is shipped (`PEntry.nj`). `bindJ` is `bind` with this step in front of every nested
-bind - in front of the nested bind's depth check too, as in the code: the shortcut is taken also where the
-nested struct would lie beyond the depth limit; where no shipped entry says a string decodes, it *is* `bind`
+bind, behind the depth test setNestedStructWithDepth makes first (after the fix for K04k; as shipped the shortcut came
+before any depth test: `fieldActionJAsIs`); where no shipped entry says a string decodes, it *is* `bind`
 (`bindJ_eq_bind`), so everything proved about `bind` carries over to the cases without a shortcut. Core Lean only.
 -/
 namespace Rivaas.Bind
@@ -26,10 +26,19 @@ def nestShortcut (P : Params) (g : Getter) : Option Val :=
   let v := baseGet g.src g.pre.dropLast
   if v != [] && looksJSON v then (P v).nj else none
 
-/-- one iteration of the loop with the first step of setNestedStructWithDepth in front: a nested struct field whose
-    own key holds a JSON value the decoder accepts *is* that value - before the nested bind and its depth check are
-    reached (so also at the depth limit) -/
+/-- one iteration of the loop with the shortcut of setNestedStructWithDepth in front of the nested bind: a nested struct
+    field *within the depth limit* whose own key holds a JSON value the decoder accepts *is* that value -/
 def fieldActionJ (P : Params) (cfg : Cfg) (nest : Nest) (g : Getter) (depth : Nat) (f : FieldInfo) (cur : Val) :
+    Val ⊕ Stop :=
+  -- after the fix for K04k: the depth test of setNestedStructWithDepth comes first
+  if !isMapTy f.ty && isStructTy f.ty && !decide (cfg.maxDepth < depth + 1) then
+    match nestShortcut P (g.push f.tagName) with
+    | some dv => .inl (rewrap f.ty dv)
+    | none => fieldAction P cfg nest g depth f cur
+  else fieldAction P cfg nest g depth f cur
+
+/-- as shipped (K04k): the shortcut was taken before any depth test -/
+def fieldActionJAsIs (P : Params) (cfg : Cfg) (nest : Nest) (g : Getter) (depth : Nat) (f : FieldInfo) (cur : Val) :
     Val ⊕ Stop :=
   if !isMapTy f.ty && isStructTy f.ty then
     match nestShortcut P (g.push f.tagName) with
